@@ -39,7 +39,7 @@ pub fn gen(r: &mut Rng, thorough: bool) -> String {
                 10 => format!("U{y}:{}", t0 + r.below(300)),
                 11 => format!("S{y}"),
                 12 => "C".to_string(),
-                13 => format!("P{}", r.below(2)),
+                13 => format!("P{}", *r.pick(&[0u64, 1, 1, 7, 1100, 1127, 1128, 1129, 1300])),
                 14 => format!("R{}", r.below(100)),
                 _ => format!("S{y}"),
             };
@@ -115,7 +115,7 @@ fn run_prog(steps: Vec<String>, s: &Suspender<usize, usize>, first: usize, got: 
             "W" => log.borrow_mut().push(format!("W:{}", ok(co.syscall(0, SyscallName::sleep, SyscallState::Executing)))),
             "X" => log.borrow_mut().push(format!("X:{}", ok(co.running()))),
             "C" => { s.cancel(); }
-            "P" => { if rest == "0" { panic!("boom"); } else { let k = rest.to_string(); panic!("boom{k}"); } }
+            "P" => { if rest == "0" { panic!("boom"); } else { let k = rest.to_string(); let tail = "é".repeat(rest.parse::<usize>().unwrap_or(0).saturating_sub(1000)); if tail.is_empty() { panic!("boom{k}"); } else { panic!("boom{k}-{tail}"); } } }
             "R" => return rest.parse().unwrap(),
             _ => {}
         }
